@@ -7,7 +7,7 @@ import AurelVerif.Lemmas.C10Alt2S0
 import AurelVerif.Lemmas.C10Alt2S1
 import AurelVerif.Lemmas.C10Alt2S2
 import AurelVerif.Lemmas.C10Alt2S3
-import AurelVerif.Lemmas.C10EB
+import AurelVerif.Lemmas.C10LC
 import AurelVerif.Lemmas.C10Weyl
 set_option linter.unusedSimpArgs false
 set_option linter.unusedVariables false
